@@ -24,7 +24,6 @@ CHECKS = {
  "C20": ("HIST", "property testing: gauges vs harness count after every step of generated histories", "exploration",
          "After every step of every generated history (and on the empty store) the active/expired gauges equal the harness's own count of rows by expiry.",
          "Rows within 1 s of now are skipped (boundary ambiguous at one-second granularity).", "3/C20"),
-}
 
  "C12": ("CODEC", "round-trip + differential against independent RFC 2131/3396 and Ethernet/IPv4/UDP decoders over generated messages and frames; exhaustive sweep of the 65536 flag values", "exploration",
          "Generated DHCP messages survive parse/serialise/parse and read identically through an independent RFC decoder; generated frames verify (lengths, both checksums, payload); broadcast(f) <=> bit 15 for all 65536 flag values (exhaustive sub-claim).",
